@@ -77,6 +77,8 @@ RULES = [
  ('written over a formula cell replaces the formula', 'C09', 'after-repair-differs/after-a-write-to-a-former-precedent/plain/* (the overwritten failing cell failed again after a write to a cell its former formula read)'),
  ('only a constant of the math module', 'C09', 'first-failure-is-not-a-pycel-error/*/nosuch-constant/* (=TAU(...): bare TypeError from inspect instead of UnknownFunction)'),
  ('look a reference up in the workbook of the formula which calls them', 'C07', 'result-differs-under-interleaving/cellref + stress-result-differs/cellref (CELL("contents", ref) read the cell of the workbook that loaded the function last)'),
+ ('read from a yaml file is written again with all of its digits', 'C03', 'resave-content-differs/{yml,pkl} (1.152921504606847e+18 saved, loaded and saved again became ...846e+18)'),
+ ('writes the pickle again when the text file was saved on its own', 'C03', 'file-written-by-to_file-holds-an-older-model/pkl (to_file(); set_value; to_file(yml); to_file(): the pickle still held the first state)'),
  ('an array and an error value', 'C13', 'array-formula-member-not-pointwise/array-with-error-valued-scalar'),
 ]
 
